@@ -1021,3 +1021,76 @@ func vC15SenderControl(silent bool) {
 	}
 	vAssert(confirmed, "the sender reports success only if the bytes it received confirm its file")
 }
+
+// ---------------------------------------------------------------------------------------------
+// C02 (obstructed output path): a healthy sender, but the place where the file has to go is taken - the
+// path is a directory, or its parent is a regular file. The receiver must report failure (and come back);
+// it must not report success while the file could not be written.
+func H_C02_obstructed() {
+	size := 5
+	src := vBytes("src", size)
+	rel := "d/f"
+	item := manifest.FileItem{RelPath: rel, Size: int64(size), ID: "id"}
+	m := manifest.Manifest{Items: []manifest.FileItem{item}, TotalBytes: int64(size), FileCount: 1}
+	key := fileKeyForItem(item)
+	out := vTempDir() + "/out"
+	if vBool("parentIsFile") {
+		vTempFile("out/d", []byte{1})
+		vTag("parent-is-file")
+	} else {
+		vTempFile("out/d/f/x", []byte{1})
+		vTag("path-is-directory")
+	}
+	control := &vMemStream{buf: vControlBytes(m)}
+	_ = writeDataStreams(control, DataStreams{Count: 1})
+	_ = writeFileBegin(control, FileBegin{RelPath: rel, FileSize: uint64(size), ChunkSize: 4, StreamID: key, HashAlg: HashAlgCRC32C})
+	data := &vMemStream{}
+	for i := 0; i < 2; i++ {
+		lo, hi := i*4, i*4+4
+		if hi > size {
+			hi = size
+		}
+		hdr := make([]byte, dataChunkHeaderLen)
+		binary.BigEndian.PutUint64(hdr[0:8], key)
+		binary.BigEndian.PutUint32(hdr[8:12], uint32(i))
+		binary.BigEndian.PutUint32(hdr[12:16], uint32(hi-lo))
+		binary.BigEndian.PutUint32(hdr[16:20], crc32.Checksum(src[lo:hi], crc32cTable))
+		data.buf = append(append(data.buf, hdr...), src[lo:hi]...)
+	}
+	_ = writeFileEnd(control, FileEnd{StreamID: key})
+	_ = writeControlEnd(control)
+	conn := &vScriptConn{streams: []Stream{control, data}}
+	_, err := RecvManifestMultiStream(vContext("ctx", false), conn, out, Options{NoRootDir: true, Resume: vBool("resume")})
+	vAssert(err != nil, "a receiver that cannot write the file reports failure")
+	vCover("C02 obstructed: failure reported")
+}
+
+// ---------------------------------------------------------------------------------------------
+// C02 (source changed after the scan): the manifest announces 5 bytes, the file on disk has since been
+// shortened (to 0..4 bytes) or removed. Whatever the receiver answers - here even an acknowledgement -
+// the sender cannot have sent the file and must not report success.
+func H_C02_sender_source() {
+	size := 5
+	dir := vTempDir()
+	if vBool("sourceRemoved") {
+		vTempFile("src/other", []byte{1})
+		vTag("source-removed")
+	} else {
+		have := vChoice("sourceBytes", size)
+		vTempFile("src/f", vBytes("src", have))
+		vTag("source-shortened")
+	}
+	item := manifest.FileItem{RelPath: "f", Size: int64(size), ID: "id"}
+	m := manifest.Manifest{Root: "src", Items: []manifest.FileItem{item}, TotalBytes: int64(size), FileCount: 1}
+	key := fileKeyForItem(item)
+	acks := &vMemStream{}
+	if vBool("receiverConfirmsAnyway") {
+		_ = writeFileDone(acks, FileDone{StreamID: key, OK: true})
+	}
+	vSenderAcks = acks.buf
+	vSenderPeerSilent = false
+	conn := &vSendConn{}
+	err := SendManifestMultiStream(vContext("ctx", false), conn, dir+"/src", m, Options{ChunkSize: 4, ParallelFiles: 1})
+	vAssert(err != nil, "a sender whose source file shrank or vanished after the scan reports failure")
+	vCover("C02 sender-source: failure reported")
+}
